@@ -397,3 +397,4 @@ include!("c17/dynval.rs");
 include!("c17/registry.rs");
 include!("c17/run.rs");
 include!("c17/bind.rs");
+include!("c17/rows.rs");
